@@ -554,6 +554,34 @@ func (g *opGen) drawOp(t *rapid.T, u *storeUnderTest) sop {
 			return sop{Kind: "addw", Index: g.index(t), W: 0}
 		}
 		return sop{Kind: "burst", Burst: b}
+	case "bigburst":
+		// large scale: hundreds to thousands of unit adds over a window of up to tens of thousands of indexes
+		// (arrays grown and shifted several times, many pages and compaction cycles, long encodings)
+		n := rapid.IntRange(300, 3000).Draw(t, "bign")
+		width := rapid.SampledFrom([]int{40, 700, 5000, 30000}).Draw(t, "bigw")
+		if width > 2*g.span {
+			width = 2*g.span + 1
+		}
+		if !g.bud.Fits(total + float64(n)) {
+			return sop{Kind: "addw", Index: g.index(t), W: 0}
+		}
+		lo := g.index(t)
+		if lo+width-1 > g.base+g.span {
+			lo = g.base + g.span - width + 1
+		}
+		out := make([]int, n)
+		asc := rapid.IntRange(0, 3).Draw(t, "bigorder")
+		for i := range out {
+			switch asc {
+			case 0: // ascending sweep
+				out[i] = lo + i*width/n
+			case 1: // descending sweep
+				out[i] = lo + width - 1 - i*width/n
+			default:
+				out[i] = lo + rapid.IntRange(0, width-1).Draw(t, "bigi")
+			}
+		}
+		return sop{Kind: "burst", Burst: out}
 	case "merge", "decmerge", "protomerge":
 		ak := gen.AnyKind().Draw(t, "argkind")
 		if rapid.IntRange(0, 2).Draw(t, "samekind") == 0 {
